@@ -204,12 +204,45 @@ def check_tables(ctx):
 
 def check_quote_shape(ctx, qf, names):
     """full mode: per *byte* of the NFC-normalised UTF-8 encoding, through the map;
-    minimal mode: only characters in DELIMS go through the map."""
-    src = ast.unparse(qf.node)
-    has_full = any(isinstance(n, ast.If) and txt(n.test) == 'full_quote' for n in ast.walk(qf.node))
+    minimal mode: only characters in DELIMS go through the map. The body may live in a
+    shared helper the quote function delegates to (map, delimiter set and mode passed on)."""
+    body = qf
+    via = ''
+    rets = [n for n in ast.walk(qf.node) if isinstance(n, ast.Return)]
+    if len(rets) == 1 and isinstance(rets[0].value, ast.Call) and isinstance(rets[0].value.func, ast.Name):
+        callee = qf.module.functions.get(rets[0].value.func.id)
+        call = rets[0].value
+        if callee is not None:
+            argt = [txt(a) for a in call.args] + [txt(k.value) for k in call.keywords]
+            if names['map'] in argt and names['delims'] in argt and 'full_quote' in argt and 'text' in argt:
+                # bind the helper's parameters
+                ps = callee.params
+                bound = {}
+                for i, a in enumerate(call.args):
+                    if i < len(ps):
+                        bound[ps[i]] = txt(a)
+                for k in call.keywords:
+                    bound[k.arg] = txt(k.value)
+                inv = {v: k for k, v in bound.items()}
+                body = callee
+                via = ' (through %s)' % callee.name
+                mode = inv.get('full_quote', 'full_quote')
+                has_full = any(isinstance(n, (ast.If, ast.IfExp)) and txt(n.test) == mode for n in ast.walk(callee.node))
+                enc = [n for n in ast.walk(callee.node) if isinstance(n, ast.Call) and isinstance(n.func, ast.Attribute)
+                       and n.func.attr == 'encode' and n.args and isinstance(n.args[0], ast.Constant)
+                       and str(n.args[0].value).lower().replace('-', '') == 'utf8']
+                uses_map = any(isinstance(n, ast.Subscript) and txt(n.value) == inv.get(names['map'], '?') for n in ast.walk(callee.node))
+                uses_delims = any(isinstance(n, ast.Compare) and isinstance(n.ops[0], ast.In) and
+                                  txt(n.comparators[0]) == inv.get(names['delims'], '?') for n in ast.walk(callee.node))
+                ctx.ob('T12.shape', qf.fq, 'full quoting maps every byte of the UTF-8 encoding through the quote map, minimal quoting only the '
+                       'component\'s delimiters' + via, has_full and bool(enc) and uses_map and uses_delims, loc=qf.loc)
+                return
+    has_full = any(isinstance(n, (ast.If, ast.IfExp)) and txt(n.test) == 'full_quote' for n in ast.walk(qf.node))
     enc = [n for n in ast.walk(qf.node) if isinstance(n, ast.Call) and isinstance(n.func, ast.Attribute)
            and n.func.attr == 'encode' and n.args and isinstance(n.args[0], ast.Constant)
            and str(n.args[0].value).lower().replace('-', '') == 'utf8']
+    if not has_full and not enc:
+        raise AnalysisError('%s: neither a full_quote branch nor a recognised delegation to a shared helper' % qf.fq)
     ctx.ob('T12.shape', qf.fq, 'full quoting maps every byte of the UTF-8 encoding through the quote map '
            '(branch on full_quote present, utf-8 encode present)', has_full and bool(enc), loc=qf.loc)
 
@@ -236,9 +269,11 @@ def check_make_quote_map(ctx, fn):
                 and isinstance(n.func.value, ast.Constant) and str(n.func.value.value).startswith('%'):
             detail = 'format %r' % n.func.value.value
             fmt_ok = n.func.value.value in ('%{:02X}', '%{0:02X}')
-    ifs = [n for n in ast.walk(fn.node) if isinstance(n, ast.If)]
-    branch_ok = any(isinstance(i.test, ast.Compare) and isinstance(i.test.ops[0], ast.In) and
+    ifs = [n for n in ast.walk(fn.node) if isinstance(n, (ast.If, ast.IfExp))]
+    branch_ok = any(isinstance(i.test, ast.Compare) and isinstance(i.test.ops[0], (ast.In, ast.NotIn)) and
                     txt(i.test.comparators[0]) == fn.params[0] for i in ifs)
+    if not detail:
+        raise AnalysisError('%s: no recognisable "%%" + hex formatting construct' % fn.fq)
     ctx.ob('T12.qmap', fn.fq, 'unsafe byte b -> "%" + two UPPER-case hex digits of b, safe -> itself, for all 256 bytes',
            ok_range and fmt_ok and branch_ok, loc=fn.loc,
            detail='range(256): %s; %s; branch on membership in %s: %s' % (ok_range, detail, fn.params[0], branch_ok))
@@ -255,30 +290,57 @@ def check_unquote_to_bytes(ctx, fn):
             return ()
     w = Walker(ctx.program, M(ctx.program))
     ok_miss = ok_hit = False
+    bad_miss = bad_hit = None
     n = 0
     for p in w.paths(fn):
         if p.kind == 'cutoff':
             continue
         n += 1
-        appended = []
-        for o in p.ops:
-            if o.kind == 'call' and txt(w.expand(o.val.func)) in ('res.append', '$l.append') or \
-                    (o.kind == 'call' and isinstance(o.val.func, ast.Attribute) and o.val.func.attr == 'append'):
-                appended.append((txt(w.expand(o.val.args[0])) if o.val.args else '', o))
-        missed = any(o.kind == 'except' and o.info == 'KeyError' for o in p.ops)
-        if missed:
-            # after the failed lookup: b'%' then the item unchanged
-            idx = [i for i, o in enumerate(p.ops) if o.kind == 'except'][-1]
-            after = [a for a, o in appended if o.seq > p.ops[idx].seq]
-            if len(after) >= 2 and after[0] == "b'%'" and not after[1].endswith(']'):
-                ok_miss = True
-        hits = [a for a, o in appended if a.startswith('_HEX_CHAR_MAP[') and '[:2]' in a]
-        rest = [a for a, o in appended if a.endswith('[2:]')]
-        if hits and rest:
-            ok_hit = True
+        ops = p.ops
+        bounds = [o.seq for o in ops if o.kind == 'iter_next' and o.info is True] + [10 ** 9]
+        for a, b in zip(bounds, bounds[1:]):
+            seg = [o for o in ops if a < o.seq < b]
+            emitted = []
+            for o in seg:
+                if o.kind == 'call' and isinstance(o.val.func, ast.Attribute) and o.val.func.attr == 'append' and o.val.args:
+                    emitted.append(txt(w.expand(o.val.args[0])))
+                elif o.kind == 'call' and isinstance(o.val.func, ast.Attribute) and o.val.func.attr == 'extend' and o.val.args \
+                        and isinstance(o.val.args[0], ast.Tuple):
+                    emitted.extend(txt(w.expand(x)) for x in o.val.args[0].elts)
+            if not emitted:
+                continue
+            looked = [o for o in seg if (o.kind == 'sub_load' and txt(o.val.value) == '_HEX_CHAR_MAP') or
+                      (o.kind == 'call' and txt(o.val.func) == '_HEX_CHAR_MAP.get')]
+            if not looked:
+                continue
+            missed = any(o.kind == 'except' and o.info == 'KeyError' for o in seg)
+            for t, truth, o in [(t, tr, o) for t, tr, o in __import__('rules.common', fromlist=['tests_on']).tests_on(w, p) if a < o.seq < b]:
+                if t.startswith('_HEX_CHAR_MAP.get(') and t.endswith(' is None'):
+                    missed = truth
+                elif t.startswith('_HEX_CHAR_MAP.get(') and t.endswith(' is not None'):
+                    missed = not truth
+            item = None
+            for o in looked:
+                e = w.expand(o.val.slice if o.kind == 'sub_load' else o.val.args[0])
+                if isinstance(e, ast.Subscript):
+                    item = txt(e.value)
+            if item is None:
+                continue
+            if missed:
+                good = emitted[-2:] == ["b'%'", item]
+                ok_miss = ok_miss or good
+                if not good:
+                    bad_miss = emitted
+            else:
+                good = len(emitted) >= 2 and emitted[-1] == item + '[2:]' and '_HEX_CHAR_MAP' in emitted[-2] and item + '[:2]' in emitted[-2]
+                ok_hit = ok_hit or good
+                if not good:
+                    bad_hit = emitted
+    if n == 0 or (not ok_miss and bad_miss is None) or (not ok_hit and bad_hit is None):
+        raise AnalysisError('%s: hit/miss emission sites not recognised' % fn.fq)
     ctx.ob('T12.unq', fn.fq, 'a %%XX escape is replaced by the byte and the rest of the chunk kept; anything else is '
-           're-emitted as "%%" + the chunk unchanged', ok_miss and ok_hit, loc=fn.loc,
-           detail='paths %d; hit path ok: %s; miss path ok: %s' % (n, ok_hit, ok_miss))
+           're-emitted as "%%" + the chunk unchanged', ok_miss and ok_hit and bad_miss is None and bad_hit is None, loc=fn.loc,
+           detail='paths %d; hit ok: %s (bad: %s); miss ok: %s (bad: %s)' % (n, ok_hit, bad_hit, ok_miss, bad_miss))
 
 
 # ---------------------------------------------------------------------------
@@ -352,21 +414,60 @@ def check_flow(ctx):
     run(ga, 'self.username', 'quote_userinfo_part', False, 'username')
     run(ga, 'self.password', 'quote_userinfo_part', False, 'password')
     run(tt, 'self.fragment', 'quote_fragment_part', True, 'fragment')
-    # path segments: the comprehension over self.path_parts quotes its element
-    par = parents_of(tt.node)
-    ok = False
-    det = 'no comprehension over self.path_parts'
-    for n in ast.walk(tt.node):
-        if isinstance(n, (ast.ListComp, ast.GeneratorExp)) and txt(n.generators[0].iter) == 'self.path_parts':
-            tgt = txt(n.generators[0].target)
-            e = n.elt
-            kws = {k.arg: txt(k.value) for k in e.keywords} if isinstance(e, ast.Call) else {}
-            ok = isinstance(e, ast.Call) and call_name(e) == 'quote_path_part' and e.args and txt(e.args[0]) == tgt \
-                and kws.get('full_quote', txt(e.args[1]) if len(e.args) > 1 else None) == 'full_quote'
-            det = txt(e)
-    others = [n for n in uses(tt, 'self.path_parts') if not isinstance(par.get(n), ast.comprehension)]
+    # path segments: every segment goes through quote_path_part with the caller's mode, in to_text itself or in a
+    # helper method it delegates to (with the mode passed on)
+    def segments_quoted(fn, mode):
+        """(ok, detail): all uses of self.path_parts in fn iterate it and quote each element with `mode`."""
+        par = parents_of(fn.node)
+        us = uses(fn, 'self.path_parts')
+        if not us:
+            return None, 'no use of self.path_parts'
+        for n in us:
+            p = par.get(n)
+            elem = None
+            scope = None
+            if isinstance(p, ast.comprehension) and p.iter is n:
+                elem, scope = txt(p.target), par.get(p)
+            elif isinstance(p, ast.For) and p.iter is n:
+                elem, scope = txt(p.target), p
+            else:
+                return False, 'self.path_parts used outside an iteration: %s' % txt(p)
+            seen_q = False
+            for x in ast.walk(scope):
+                if isinstance(x, ast.Name) and x.id == elem and isinstance(x.ctx, ast.Load):
+                    px = par.get(x)
+                    if not (isinstance(px, ast.Call) and call_name(px) == 'quote_path_part' and px.args and px.args[0] is x):
+                        return False, 'segment `%s` used outside quote_path_part' % elem
+                    kws = {k.arg: txt(k.value) for k in px.keywords}
+                    fqv = kws.get('full_quote', txt(px.args[1]) if len(px.args) > 1 else None)
+                    if fqv != mode:
+                        return False, 'quote_path_part is not given the caller\'s mode (%s)' % fqv
+                    seen_q = True
+            if not seen_q:
+                return False, 'segments are not quoted'
+        return True, 'each segment through quote_path_part(.., full_quote=%s)' % mode
+    ok, det = segments_quoted(tt, 'full_quote')
+    if ok is None:
+        ok = False
+        for n in ast.walk(tt.node):
+            if isinstance(n, ast.Call) and isinstance(n.func, ast.Attribute) and txt(n.func.value) == 'self':
+                h = prog.resolve(ci, n.func.attr)
+                if isinstance(h, FuncInfo) and uses(h, 'self.path_parts'):
+                    ps = h.params[1:]
+                    bound = {}
+                    for i, a in enumerate(n.args):
+                        if i < len(ps):
+                            bound[ps[i]] = txt(a)
+                    for k in n.keywords:
+                        bound[k.arg] = txt(k.value)
+                    modes = [k for k, v in bound.items() if v == 'full_quote']
+                    if modes:
+                        ok, det = segments_quoted(h, modes[0])
+                        det = '%s via %s' % (det, h.qualname)
+                    else:
+                        ok, det = False, '%s is not given the caller\'s full_quote' % h.qualname
     ctx.ob('T13', tt.fq, 'every path segment reaches the output only through quote_path_part with the caller\'s full_quote',
-           ok and not others, loc=tt.loc, detail=det)
+           bool(ok), loc=tt.loc, detail=det)
     # sub-renderers are called with the caller's mode
     for callee, kw in (('self.get_authority', {'full_quote': 'full_quote', 'with_userinfo': 'True'}),
                        ('self.query_params.to_text', {'full_quote': 'full_quote'})):
@@ -434,6 +535,22 @@ class UrlRaiseModel(Model):
                     return ('UnicodeError',)
                 return ('UnicodeEncodeError',)
             if f.attr == 'groupdict':
+                # re.match(...) may have returned None -- unless the path already tested it
+                recv = txt(walker.expand(f.value))
+                t = st.trace
+                while t is not None:
+                    o = t[0]
+                    t = t[1]
+                    if o.kind == 'test':
+                        e = walker.expand(o.val)
+                        neg = False
+                        while isinstance(e, ast.UnaryOp) and isinstance(e.op, ast.Not):
+                            neg = not neg
+                            e = e.operand
+                        truth = (o.info != neg)
+                        te = txt(e)
+                        if (te == recv + ' is None' and not truth) or (te == recv + ' is not None' and truth) or (te == recv and truth):
+                            return ()
                 return ('AttributeError',)
         callee = op.info
         if isinstance(callee, tuple) and callee[0] == 'class':
